@@ -1036,6 +1036,10 @@ def solvability(env, name, td, rows, exhaustive, cap, checker, stats):
                 continue
             stats["traces"] += 1
             stats["env_states"] += tree.states
+            if tree.crashes:
+                h, e = tree.crashes[0]
+                out.append((f"env_crash:{type(e).__name__}", f"{name}: exploring row {r}: the mask-admitted step {list(h)} raised {type(e).__name__}: {str(e)[:160]} ({len(tree.crashes)} such steps)", dict(row=r, env=name, actions=list(h))))
+                continue
             if tree.dead:
                 out.append(("dead_end", f"{name}: row {r}: no feasible action after {list(tree.dead[0])} although the episode is not finished ({len(tree.dead)} such states)", dict(row=r, env=name, actions=list(tree.dead[0]))))
             if tree.capped and tree.max_depth >= cap:
